@@ -25,6 +25,7 @@ import GomlVerif.Driver.C01pipe
 import GomlVerif.Driver.Unify
 import GomlVerif.Driver.Solve
 import GomlVerif.Driver.GoPP
+import GomlVerif.Driver.Grammar
 
 def main (args : List String) : IO UInt32 := do
   match args with
@@ -35,6 +36,7 @@ def main (args : List String) : IO UInt32 := do
   | ["c06"] => Goml.Driver.C06.main; return 0
   | ["c10"] => Goml.Driver.C10.main; return 0
   | ["c12"] => Goml.Driver.C12.main; return 0
+  | ["grammar"] => Goml.Driver.Grammar.main; return 0
   | ["c15"] => Goml.Driver.C15.main; return 0
   | ["c20"] => Goml.Driver.C20.main; return 0
   | ["sem"] => Goml.Driver.SemRun.main; return 0
